@@ -586,7 +586,9 @@ def c18(trace, V):
                     "minimum consumption of a food exceeds what people ate of it in the no-feed round")
         # priority: food k non-zero only if the foods before it are used up (== their round-1 level)
         for i, k in enumerate(ORDER):
-            nz = res[k] > 1e-9
+            # "non-zero" beyond the negative solver noise of that month (a negative higher-priority food hands
+            # its tiny amount back to the ceiling, and the next positive food picks it up)
+            nz = res[k] > 1e-9 + neg_noise
             for j in range(i):
                 kb = ORDER[j]
                 notfull = res[kb] < r1[kb] - 1e-9 * (1 + np.abs(r1[kb]))
